@@ -25,9 +25,17 @@ def run(ck, build):
     npair = modecommon.run_pairs(ck, mod, ("siv",), PAIR)
     ck.floor("R-C08-PASS", "relational obligations over the three encrypt/decrypt pairs", npair, 60)
     sub = _Ren(ck)
+    from ..build import Broken
     for f in C03.dec_fns(mod, kinds=("siv",)):
-        C03.guard_and_must(sub, f, "H/N0")
-        C03.args_rule(sub, mod, f, "H/N0")
+        try:
+            C03.guard_and_must(sub, f, "H/N0")
+            C03.args_rule(sub, mod, f, "H/N0")
+        except Broken as e:
+            if not ck.violations:
+                raise
+            # the relational rules above already refuted obligations on this function; that the affine guard/argument rule cannot
+            # follow its loop shape does not take those refutations back
+            ck.note("guard/argument rule not decided for %s: %s" % (f.name, str(e)[:200]))
     modecommon.fixture_control(ck, build, ("siv",), RM, "c08_bad.c", ["R-C08-NONCE"], pair_rulemap=PAIR)
     ck.coverage_extra.update({"functions": [f.name for f in fns], "exhaustive": True, "exhaustive_over": "every path class of the six SIV functions"})
 
